@@ -166,6 +166,9 @@ func (pc *parentController) syncRevisions(parent *unstructured.Unstructured, obs
 				return
 			}
 			pr.syncResult = syncResult
+			// The rollout compares observed children with these desired children,
+			// so they must already carry the generated selector label.
+			pc.addGeneratedSelectorLabel(parent, syncResult.Children)
 			pr.desiredChildMap = commonv1.MakeRelativeObjectMap(parent, syncResult.Children)
 		}(pr)
 	}
@@ -248,6 +251,29 @@ func (pc *parentController) syncRevisions(parent *unstructured.Unstructured, obs
 	}
 
 	return syncResult, nil
+}
+
+// addGeneratedSelectorLabel adds the controller-uid label that selector
+// generation puts on every desired child. Children with malformed labels are
+// left alone; syncParentObject reports them.
+func (pc *parentController) addGeneratedSelectorLabel(parent *unstructured.Unstructured, children []*unstructured.Unstructured) {
+	if !pc.isUsingGeneratedLabelSelector() {
+		return
+	}
+	for _, child := range children {
+		objLabels, _, err := unstructured.NestedStringMap(child.UnstructuredContent(), "metadata", "labels")
+		if err != nil {
+			continue
+		}
+		if _, ok := objLabels["controller-uid"]; ok {
+			continue
+		}
+		if objLabels == nil {
+			objLabels = make(map[string]string, 1)
+		}
+		objLabels["controller-uid"] = string(parent.GetUID())
+		child.SetLabels(objLabels)
+	}
 }
 
 func (pc *parentController) manageRevisions(parent *unstructured.Unstructured, observedRevisions, desiredRevisions []*v1alpha1.ControllerRevision) error {
